@@ -128,6 +128,30 @@ fn chain_fingerprint<S: Settings>(s: &S, n: usize) -> String {
     out
 }
 
+/// the `sampler_settings` attribute a Zarr trace created for these settings carries (sync writer
+/// over a memory store, async writer over an in-memory object store), read with a fresh reader
+fn zarr_metadata<S: Settings>(s: &S) -> Result<Vec<(&'static str, Value)>, String> {
+    use nuts_rs::verif::StorageConfig;
+    use std::sync::Arc;
+    let math = nuts_rs::CpuMath::new(Dens::new(Target::DiagNormal { mu: vec![0.0, 0.0], sigma: vec![1.0, 1.0] }));
+    let attr = |store: Arc<zarrs::storage::store::MemoryStore>| -> Result<Value, String> {
+        let g = zarrs::group::Group::open(store, "/").map_err(|e| format!("open root group: {e}"))?;
+        g.attributes().get("sampler_settings").cloned().ok_or_else(|| "root group has no sampler_settings attribute".to_string())
+    };
+    let mut out = vec![];
+    let store = Arc::new(zarrs::storage::store::MemoryStore::new());
+    let _trace = nuts_rs::ZarrConfig::new(store.clone()).new_trace(s, &math).map_err(|e| format!("{e:#}"))?;
+    out.push(("sync", attr(store)?));
+    let rt = tokio::runtime::Builder::new_current_thread().enable_all().build().map_err(|e| e.to_string())?;
+    let os = Arc::new(object_store::memory::InMemory::new());
+    let astore = Arc::new(zarrs_object_store::AsyncObjectStore::new(os.clone()));
+    let _trace = nuts_rs::ZarrAsyncConfig::new(rt.handle().clone(), astore).new_trace(s, &math).map_err(|e| format!("{e:#}"))?;
+    let mem = Arc::new(zarrs::storage::store::MemoryStore::new());
+    rt.block_on(crate::c14::futures_lite_shim::copy_object_store(os, mem.clone()))?;
+    out.push(("async", attr(mem)?));
+    Ok(out)
+}
+
 fn check_value<S: Settings + std::fmt::Debug>(
     preset: Preset,
     modified: &Value,
@@ -191,6 +215,18 @@ fn check_value<S: Settings + std::fmt::Debug>(
     }
     if format!("{s1:?}") != format!("{s2:?}") {
         p.violation(format!("C19/fields-differ-after-round-trip/{key}"), String::new(), replay.clone());
+    }
+    // the settings stored in a trace's metadata are those the run used
+    match zarr_metadata(&s1) {
+        Ok(list) => {
+            for (writer, stored) in list {
+                p.count("zarr_metadata_compared", 1);
+                if stored != v1 {
+                    p.violation(format!("C19/trace-metadata-settings-differ/{writer}/{key}"), format!("stored {stored} but the run used {v1}"), replay.clone());
+                }
+            }
+        }
+        Err(e) => p.violation(format!("C19/trace-metadata-unreadable/{key}"), e, replay.clone()),
     }
     if run_chains {
         let n = if preset.is_nuts() { 30 } else { 10 };
